@@ -22,6 +22,7 @@ acquisition with a timeout costs four times an untimed one, hence the separate w
 Worker threads are pooled per process (creating threads costs more than an execution).
 """
 import os
+import sys
 import threading
 import time
 from _thread import allocate_lock, get_ident
@@ -141,10 +142,17 @@ class Scheduler:
     thread holds the baton when it reaches a scheduling point; it then hands the baton straight to the chosen thread
     (or simply continues when it chose itself).  The controller only starts the first thread and waits for the end."""
 
-    def __init__(self, n, schedule=(), order=None):
+    def __init__(self, n, schedule=(), order=None, preempt=None, lines=None):
         self.n = n
         self.schedule = schedule
         self.order = order  # optional priority list of threads: always run the first one that can (serial executions)
+        # preemption mode (preempt is a dict step -> choice): the thread that holds the baton keeps it at every step not
+        # named in the dict (when it has finished: the lowest runnable thread), so a schedule is described by its few
+        # context switches instead of by every choice
+        self.preempt = preempt
+        # line mode (lines is the source file of bits.p2p): every source line executed inside a method of Node by a
+        # receive thread is a scheduling point too (the interpreter may switch threads between any two bytecodes)
+        self.lines = lines
         self.pool = _pool()
         self.pool.ensure(n)
         self.pending = [None] * n  # op the thread is parked in front of
@@ -161,8 +169,9 @@ class Scheduler:
         self.timed_out = False
         self.active = False
 
-    def _next(self):
-        """Index of the thread that runs next (None: nobody can). Called only by the holder of the baton."""
+    def _next(self, cur=None):
+        """Index of the thread that runs next (None: nobody can). Called only by the holder of the baton (`cur`, when it
+        is a receive thread that wants to go on)."""
         if self.unstarted:
             # start-up: every thread first runs, in peer order, to its first scheduling point (thread-local work only:
             # recv + parse of its first message); this consumes no schedule entry
@@ -178,6 +187,14 @@ class Scheduler:
         step = len(self.counts)
         if self.order is not None:
             c = runnable.index(next(t for t in self.order if t in runnable))
+        elif self.preempt is not None:
+            want = self.preempt.get(step)
+            if want is not None:
+                c = want % k
+            elif cur in runnable:
+                c = runnable.index(cur)
+            else:
+                c = 0
         else:
             c = self.schedule[step] % k if step < len(self.schedule) else 0
         i = runnable[c]
@@ -207,7 +224,7 @@ class Scheduler:
             return None
         self.enabled[i] = enabled
         self.pending[i] = op
-        nxt = self._next()
+        nxt = self._next(i)
         if nxt == i:
             return i
         self._pass(nxt)
@@ -228,10 +245,32 @@ class Scheduler:
             except RuntimeError:
                 pass
 
+    def _tracer(self):
+        fn, park = self.lines, self.park
+
+        def local(frame, event, arg):
+            if event == "line":
+                park("line:%d" % frame.f_lineno)
+            return local
+
+        def glob(frame, event, arg):
+            co = frame.f_code
+            if co.co_filename == fn and co.co_qualname.startswith("Node."):
+                return local
+            return None
+
+        return glob
+
     def _job(self, i, body):
         def job():
             try:
-                body()
+                if self.lines:
+                    sys.settrace(self._tracer())
+                try:
+                    body()
+                finally:
+                    if self.lines:
+                        sys.settrace(None)
             except _Abort:
                 return
             except BaseException as exc:  # noqa: BLE001 - a dying receive thread is an observation
@@ -535,19 +574,23 @@ class Execution:
 _LOCK_TYPES = (type(threading.Lock()), type(threading.RLock()))
 
 
-def run_node(p2p, peer_messages, schedule=(), order=None):
+def run_node(p2p, peer_messages, schedule=(), order=None, preempt=None, lines=False):
     """Run Node.recv_loop for len(peer_messages) peers under the given schedule; returns an Execution.
     peer_messages[p] is the list of serialised messages peer p sends. `order` (a permutation of the peers) replaces the
-    schedule by "run the first thread of `order` that can run", i.e. a serial execution in that order."""
+    schedule by "run the first thread of `order` that can run", i.e. a serial execution in that order. `preempt` /
+    `lines`: see Scheduler."""
     n = len(peer_messages)
     node = p2p.Node()
-    sched = Scheduler(n, schedule, order)
+    sched = Scheduler(n, schedule, order, preempt, p2p.__file__ if lines else None)
     queue = ParkDeque(sched, node._msg_queue)
     node._msg_queue = queue
     node._registered_commands_to_handle = park_membership(sched, node._registered_commands_to_handle)
-    for name, val in list(vars(node).items()):
+    for name, val in list(vars(type(node)).items()) + list(vars(node).items()):
         if isinstance(val, _LOCK_TYPES):
             setattr(node, name, ParkLock(sched, reentrant=isinstance(val, _LOCK_TYPES[1])))
+    module_locks = {name: val for name, val in vars(p2p).items() if isinstance(val, _LOCK_TYPES)}
+    for name, val in module_locks.items():
+        setattr(p2p, name, ParkLock(sched, reentrant=isinstance(val, _LOCK_TYPES[1])))
     socks = []
     bodies = []
     for p in range(n):
@@ -558,7 +601,11 @@ def run_node(p2p, peer_messages, schedule=(), order=None):
         node._peer_data[p] = {}
         socks.append(sock)
         bodies.append(lambda p=p: node.recv_loop(p))
-    sched.run(bodies)
+    try:
+        sched.run(bodies)
+    finally:
+        for name, val in module_locks.items():
+            setattr(p2p, name, val)
     return Execution(node, sched, socks, queue)
 
 
